@@ -427,6 +427,12 @@ def _elements(t, ekind):
     return [t.links[n] for n in sorted(t.links)]
 
 
+def _is_field_object(x):
+    """a mutable structured value (Capacities, Labels, ReservationInfo, Location ...), not an enum member"""
+    from fim.slivers.capacities_labels import JSONField
+    return isinstance(x, JSONField) and bool(x.__dict__)
+
+
 def _run_element(case):
     v = []
     ek, p = case["ekind"], case["prop"]
@@ -456,10 +462,24 @@ def _run_element(case):
         v.append((f"C02/set_property/raised/{p}", f"{ek} ({case['flavour']}): {type(ex).__name__}: {ex}"))
     if ok:
         try:
-            got = E.canon_prop(p, el.get_property(p))
+            raw = el.get_property(p)
+            got = E.canon_prop(p, raw)
             if got != expected:
                 v.append((f"C02/set_property/readback/{p}",
                           f"{ek} ({case['flavour']}): set {expected!r:.300} read {got!r:.300}"))
+            elif _is_field_object(raw):
+                # what a read hands out is the caller's own object: changing it in place (without writing it back)
+                # must not change what the model reads as next time
+                for k_ in list(raw.__dict__):
+                    try:
+                        setattr(raw, k_, None)
+                    except Exception:
+                        pass
+                again = E.canon_prop(p, el.get_property(p))
+                if again != expected:
+                    v.append((f"C02/get_property/depends-on-object-read-earlier/{p}",
+                              f"{ek} ({case['flavour']}): after clearing the object returned by the first read the "
+                              f"property reads {again!r:.300}, stored {expected!r:.300}"))
         except Exception as ex:
             ok = False
             v.append((f"C02/get_property/raised/{p}", f"{ek} ({case['flavour']}): {type(ex).__name__}: {ex}"))
